@@ -77,6 +77,15 @@ def check_alignment_cover(repo, chk):
                         refm[p] = {"r_matrix": {"x": sp.Symbol("rref_%s" % p, commutative=False)}, "b_matrix": {"x": sp.Symbol("bref_%s" % p, commutative=False)}}
                     return set_x, refm
 
+                def ref_rule2(tr, args, kwargs, node):
+                    # reference rule 2 (align_ref="center_mass"): one canonical frame per particle, no reference chain -
+                    # every chain is rotated, the one whose top decay emits the particle included
+                    set_x, refm = {}, {}
+                    for p in finals:
+                        set_x[p] = (None, {"x": sp.Symbol("xcan_%s" % p), "z": sp.Symbol("zcan_%s" % p)})
+                        refm[p] = {"r_matrix": {"x": sp.Symbol("rref_%s" % p, commutative=False)}, "b_matrix": {"x": sp.Symbol("bref_%s" % p, commutative=False)}}
+                    return set_x, refm
+
                 def su2(tr, args, kwargs, node):
                     a = [x for x in args if not (isinstance(x, SelfObj) and not x.attrs)]
                     v = a[-1]
@@ -91,6 +100,8 @@ def check_alignment_cover(repo, chk):
                 def sym_method(tr, obj, name, args, kwargs):
                     if name == "get_euler_angle":
                         return ("euler", sp.sympify(obj))
+                    if name == "inv" and not args:
+                        return sp.sympify(obj) ** -1
                     return NotImplemented
 
                 su2cls = repo.cls("tf_pwa/angle.py::SU2M")
@@ -98,7 +109,7 @@ def check_alignment_cover(repo, chk):
                 hooks = {
                     CAL + "::cal_helicity_angle": helicity,
                     CAL + "::aligned_angle_ref_rule1": ref_rule,
-                    CAL + "::aligned_angle_ref_rule2": ref_rule,
+                    CAL + "::aligned_angle_ref_rule2": ref_rule2,
                     su2cls.key: su2,
                     "sym_method": sym_method,
                     "allow_shape": True, "concrete_zeros": True, "stack_as_array": True, "allow_attr_store": True,
@@ -109,7 +120,7 @@ def check_alignment_cover(repo, chk):
                 if "inv" in su2cls.methods:
                     hooks[su2cls.methods["inv"].key] = su2_inv
                 if "angle_zx_zx" in eul.methods:
-                    hooks[eul.methods["angle_zx_zx"].key] = lambda tr, args, kwargs, node: ("zxzx",) + tuple(a for a in args if not isinstance(a, SelfObj))
+                    hooks[eul.methods["angle_zx_zx"].key] = lambda tr, args, kwargs, node: ("zxzx",) + tuple(a for a in args if not isinstance(a, SelfObj)) + tuple(kwargs.values())
                 ds = repo.fn_opt("tf_pwa/data.py::data_strip") if hasattr(repo, "fn_opt") else None
                 if ds is not None:
                     hooks[ds.key] = lambda tr, args, kwargs, node: args[0]
@@ -133,7 +144,7 @@ def check_alignment_cover(repo, chk):
                                 continue
                             entry = decay_data_probe[k][d_][p]
                             has = "aligned_angle" in entry
-                            need_ = ref_chain[p] != k
+                            need_ = ref_chain[p] != k or align_ref == "center_mass"
                             if need_ and not has:
                                 missing.append((k, p))
                             if has and not need_:
@@ -142,12 +153,12 @@ def check_alignment_cover(repo, chk):
                                 val = entry["aligned_angle"]
                                 text = str(val)
                                 own = ("r_%d%s" % (k, p)) if r_boost else ("x_%d%s" % (k, p))
-                                ref = ("rref_%s" % p) if r_boost else ("x_%d%s" % (ref_chain[p], p))
+                                ref = ("rref_%s" % p) if r_boost else (("xcan_%s" % p) if align_ref == "center_mass" else ("x_%d%s" % (ref_chain[p], p)))
                                 if own not in text or ref not in text:
                                     wrong.append((k, p, text[:80]))
                 ok = not (missing or extra or wrong)
                 n_cases += 1
-                chk.oblige("A-cover", "%s: aligned_angle on the 6 non-reference (chain, particle) pairs, built from own and reference frames" % label, ok)
+                chk.oblige("A-cover", "%s: aligned_angle on the %d (chain, particle) pairs that need it, built from own and reference frames" % (label, 9 if align_ref == "center_mass" else 6), ok)
                 if missing:
                     chk.violation("A-cover", fn.key, "missing:%s" % label, "%s: no alignment rotation is stored for %s (chain index, particle) although the particle's reference chain is another one (%s): the helicity frames of that particle differ between the chains, so the interference between them is wrong for a spinning final-state particle" % (label, missing, {str(p): c for p, c in ref_chain.items()}), file=CAL, line=fn.lineno)
                 elif wrong:
